@@ -1384,3 +1384,17 @@ add("mergetree-11-odd-tail-merged-with-itself", ["C08", "C02", "C03", "C19"], "h
     "        for i in range(n_to_merge // 2):\n            sketch1 = (sketch_type, sketch_args, sketch_array[i * 2].shm.name)\n            sketch2 = (sketch_type, sketch_args, sketch_array[i * 2 + 1].shm.name)\n",
     "        for i in range(0, n_to_merge, 2):\n            j = min(i + 1, n_to_merge - 1)\n            sketch1 = (sketch_type, sketch_args, sketch_array[i].shm.name)\n            sketch2 = (sketch_type, sketch_args, sketch_array[j].shm.name)\n",
     rules=["mergetree"])
+
+# two-pass query: a fill pass over the bucket array, then the minimum pass
+_Q1 = ("    min_count = uint_maxval\n    for row in range(depth):\n        buckets[row] = fasthash64(key, row) % width\n        count = cms[row, buckets[row]]\n"
+       "        if count < min_count:\n            min_count = count\n    return min_count\n\n\n@njit(\n    types.void(\n        uint32[:, :],")
+def _q2(seed="row", bound="depth"):
+    return ("    for row in range(%s):\n        buckets[row] = fasthash64(key, %s) %% width\n    min_count = uint_maxval\n    for row in range(depth):\n"
+            "        count = cms[row, buckets[row]]\n        if count < min_count:\n            min_count = count\n    return min_count\n\n\n@njit(\n    types.void(\n        uint32[:, :],"
+            % (bound, seed))
+add("E-twopass-01-linear-query-fills-buckets-first", ["C01", "C05", "C14", "C12", "C18"], "countmin", _Q1, _q2(), kind="E",
+    note="the bucket columns are computed in a pass of their own before the minimum pass")
+add("twopass-02-fill-pass-uses-one-seed", ["C14"], "countmin", _Q1, _q2(seed="0"), rules=["seedrow", "qmin"],
+    note="every row hashes with seed 0: the rows are no longer independent")
+add("twopass-03-fill-pass-skips-last-row", ["C01", "C14"], "countmin", _Q1, _q2(bound="depth - 1"), rules=["qmin", "seedrow", "addr"],
+    note="the last row's bucket is whatever the previous key left there")
